@@ -16,6 +16,18 @@ package ceremony
 // class, through mempool.EncryptPrivateKeysPackage -> KeysPool -> GetFlipKeys -> ECIES decrypt.
 // Who authored which cid is the harness' own ground truth (it placed the flips), never the
 // lottery's tables.
+//
+// Two consecutive epochs on one node: every layout of the real-key class is followed by a SECOND
+// epoch on the same database, the same AppState and the same KeysPool object (whose caches the
+// key oracle of the first epoch has filled). The node's own end-of-validation code runs in
+// between (the validation-finishing block: epoch + 1, flips dropped, new identity states; the
+// real ValidationCeremony.completeEpoch -> KeysPool.Clear; then the blocks in which the new
+// flips are submitted), the identities stay (most authors publish again, some stop, some start,
+// a few identities leave or join), every author has NEW flip keys and a package signed for the
+// new epoch, the lottery seed is new, and the same oracles are applied to the second epoch. In
+// two further histories the node is restarted after the epoch change (AppState, KeysPool and
+// ceremony re-created on the same database). The second-epoch lottery is also compared with
+// the one of a node that never saw the first epoch.
 
 import (
 	"bytes"
@@ -35,6 +47,7 @@ import (
 	"github.com/idena-network/idena-go/blockchain/types"
 	"github.com/idena-network/idena-go/common"
 	"github.com/idena-network/idena-go/common/eventbus"
+	"github.com/idena-network/idena-go/config"
 	"github.com/idena-network/idena-go/core/appstate"
 	"github.com/idena-network/idena-go/core/flip"
 	"github.com/idena-network/idena-go/core/mempool"
@@ -42,6 +55,7 @@ import (
 	"github.com/idena-network/idena-go/crypto"
 	"github.com/idena-network/idena-go/crypto/ecies"
 	"github.com/idena-network/idena-go/database"
+	"github.com/idena-network/idena-go/events"
 	"github.com/idena-network/idena-go/ipfs"
 	"github.com/idena-network/idena-go/log"
 	"github.com/idena-network/idena-go/secstore"
@@ -57,7 +71,21 @@ const (
 	c16PhaseDup    = 3
 	c16PhaseExh    = 4
 	c16PhaseCanon  = 5
+
+	// how the node got from the first epoch of a history into the second one
+	c16HistSameNode         = 0 // long-running node: same ceremony object, same keys pool
+	c16HistRestartAtOnce    = 1 // completeEpoch, then a restart before the new flips are submitted
+	c16HistRestartInLottery = 2 // completeEpoch, lottery of the new epoch, then a restart (ceremony restores)
+
+	// epoch-db namespace of throw-away ceremony objects (never an epoch a history lives in)
+	c16ScratchNs = c16Epoch + 1000
 )
+
+var c16HistNames = []string{
+	"long-running node: real completeEpoch (KeysPool.Clear) on the same ceremony and keys pool",
+	"completeEpoch, then restart (AppState, KeysPool, ceremony re-created on the same db) before the new flips are submitted",
+	"completeEpoch, new flips, lottery, then restart (AppState and KeysPool re-created, ceremony restores the persisted lottery)",
+}
 
 // the quota the property speaks about: what the ceremony hands to the lottery as "short flips count"
 var c16Quota = int(common.ShortSessionFlipsCount() + common.ShortSessionExtraFlipsCount())
@@ -95,6 +123,21 @@ type c16Layout struct {
 	dupCids   map[string]bool // "shard/cid" submitted by more than one candidate of the same shard
 	xdup      bool            // a cid shared by authors of two different shards
 	plans     []c16ShardPlan
+
+	twoEpochs  bool                    // first epoch of a two-epoch history on one node
+	epoch      uint16                  // the state epoch the layout is validated in (0: c16Epoch)
+	epochNo    int                     // 2: second consecutive epoch of a history (0/1: first)
+	hist       int                     // second epochs: c16Hist*
+	mode       int                     // second epochs: who publishes again
+	servedPrev map[common.Address]bool // second epochs: authors whose keys the node served in the previous epoch
+	served     map[common.Address]bool // authors for whom the pool handed out a package entry in this epoch
+}
+
+func (l *c16Layout) ep() uint16 {
+	if l.epoch == 0 {
+		return c16Epoch
+	}
+	return l.epoch
 }
 
 type c16NotSyncing struct{}
@@ -106,6 +149,8 @@ var (
 	c16Sec     *secstore.SecStore
 	c16Flipper *flip.Flipper
 	c16KeyPool []*ecdsa.PrivateKey
+	// completeEpoch reads the short session duration from it; nothing else of it is reached
+	c16Config = &config.Config{Validation: &config.ValidationConfig{}}
 )
 
 func c16Init() {
@@ -528,6 +573,134 @@ func c16GenExh(c c16ExhCase, k int) *c16Layout {
 	return l
 }
 
+// c16GenNextEpoch: the identity table of the epoch that follows l on the same chain. The
+// identities stay (same address, key, stored public key, shard); roles are drawn again: most
+// authors of l publish again (all of them in mode 0, nobody makes flips in mode 2), some
+// candidates leave, some non-candidates come in, up to three identities are new. All cids are
+// new, every author has new flip keys, the lottery seed is new.
+func c16GenNextEpoch(rng *verifutil.Rng, l *c16Layout) *c16Layout {
+	l2 := &c16Layout{class: l.class, phase: l.phase, index: l.index, shardsNum: l.shardsNum, seed: c16Seed(rng),
+		realKeys: true, epoch: l.ep() + 1, epochNo: 2, variantB: l.variantB}
+	l2.hist = rng.Pick(60, 20, 20)
+	l2.mode = rng.Pick(30, 62, 8)
+	usedCids := map[string]bool{}
+	asAuthor := func(id *c16Ident, k int) {
+		switch {
+		case k >= 5:
+			id.st = state.Human
+		case k == 4:
+			id.st = []state.IdentityState{state.Verified, state.Human}[rng.Intn(2)]
+		default:
+			id.st = []state.IdentityState{state.Newbie, state.Verified, state.Human}[rng.Intn(3)]
+		}
+		id.required = uint8(k)
+		if id.required > 3 {
+			id.required = 3
+		}
+		if rng.Chance(1, 4) {
+			id.required = uint8(rng.Intn(int(id.required) + 1))
+		}
+		for j := 0; j < k; j++ {
+			id.flips = append(id.flips, c16Cid(rng, usedCids))
+		}
+	}
+	asPlainCandidate := func(id *c16Ident) {
+		id.st = []state.IdentityState{state.Candidate, state.Suspended, state.Zombie, state.Newbie, state.Verified, state.Human}[rng.Intn(6)]
+	}
+	asNonCandidate := func(id *c16Ident) {
+		switch rng.Intn(4) {
+		case 0: // fewer flips than required: the flips must stay out of the lottery
+			id.st, id.required = state.Newbie, 3
+			for j := rng.Intn(3); j > 0; j-- {
+				id.flips = append(id.flips, c16Cid(rng, usedCids))
+			}
+		case 1:
+			id.st = state.Killed
+		case 2:
+			id.st = state.Invite
+		default:
+			id.st, id.required = state.Verified, 3
+		}
+	}
+	finish := func(id *c16Ident) {
+		id.rawShard = id.shard
+		if l2.shardsNum == 1 && rng.Bool() {
+			id.rawShard = 0
+		}
+		if id.st == state.Killed || id.st == state.Invite {
+			id.rawShard = 0
+		}
+		l2.idents = append(l2.idents, id)
+	}
+	inUse := map[common.Address]bool{}
+	for _, old := range l.idents {
+		inUse[old.addr] = true
+		id := &c16Ident{addr: old.addr, pub: old.pub, key: old.key, shard: old.shard, badPub: old.badPub, pos: -1}
+		wasAuthor := old.cand && len(old.flips) > 0
+		switch {
+		case wasAuthor && l2.mode == 0:
+			k := len(old.flips)
+			if rng.Bool() {
+				k = rng.Range(1, 5)
+			}
+			asAuthor(id, k)
+		case old.cand:
+			again := 1
+			if wasAuthor {
+				again = 3
+			}
+			switch {
+			case rng.Chance(1, 12):
+				asNonCandidate(id)
+			case l2.mode != 2 && rng.Chance(again, 4):
+				asAuthor(id, rng.Range(1, 5))
+			default:
+				asPlainCandidate(id)
+			}
+		default:
+			switch {
+			case rng.Bool():
+				asNonCandidate(id)
+			case l2.mode != 2 && rng.Chance(1, 3):
+				asAuthor(id, rng.Range(1, 4))
+			default:
+				asPlainCandidate(id)
+			}
+		}
+		finish(id)
+	}
+	// identities that did not exist in the previous epoch
+	keys := c16Keys(96)
+	joiners := rng.Intn(4)
+	for _, x := range rng.Perm(len(keys)) {
+		if joiners == 0 {
+			break
+		}
+		k := keys[x]
+		a := crypto.PubkeyToAddress(k.PublicKey)
+		if inUse[a] {
+			continue
+		}
+		inUse[a] = true
+		joiners--
+		id := &c16Ident{addr: a, pub: crypto.FromECDSAPub(&k.PublicKey), key: k, shard: rng.Range(1, l2.shardsNum), pos: -1}
+		if l2.mode != 2 && rng.Chance(1, 3) {
+			asAuthor(id, rng.Range(1, 3))
+		} else {
+			asPlainCandidate(id)
+		}
+		finish(id)
+	}
+	sort.Slice(l2.idents, func(i, j int) bool { return bytes.Compare(l2.idents[i].addr[:], l2.idents[j].addr[:]) < 0 })
+	for _, id := range l2.idents {
+		if len(id.flips) > 0 {
+			id.flipPub = c16FlipKey(fmt.Sprintf("verif-c16-flip-pub-epoch-%d", l2.epoch), id.addr)
+			id.flipPriv = c16FlipKey(fmt.Sprintf("verif-c16-flip-priv-epoch-%d", l2.epoch), id.addr)
+		}
+	}
+	return l2
+}
+
 // ------------------------------------------------------------------ the world (real state, real ceremony)
 
 type c16World struct {
@@ -535,34 +708,20 @@ type c16World struct {
 	bus      eventbus.Bus
 	app      *appstate.AppState
 	keysPool *mempool.KeysPool
+	flipper  *flip.Flipper // two-epoch histories only: completeEpoch resets it, which needs its AppState
+	height   uint64        // committed state version = height of the head block
 }
 
-func c16Build(l *c16Layout) (*c16World, error) {
-	w := &c16World{db: dbm.NewMemDB(), bus: eventbus.New()}
-	app, err := appstate.NewAppState(w.db, w.bus)
-	if err != nil {
-		return nil, err
-	}
-	if err := app.Initialize(0); err != nil {
-		return nil, err
-	}
-	w.app = app
-	st := app.State
-	st.SetGlobalEpoch(c16Epoch)
-	st.SetShardsNum(uint32(l.shardsNum))
-	for _, id := range l.idents {
-		st.SetState(id.addr, id.st)
-		st.SetPubKey(id.addr, id.pub)
-		st.SetShardId(id.addr, common.ShardId(id.rawShard))
-		st.SetRequiredFlips(id.addr, id.required)
-		for j, c := range id.flips {
-			st.AddFlip(id.addr, c, uint8(j))
-		}
-	}
-	if err := app.Commit(nil); err != nil { // version 1
-		return nil, err
-	}
-	// ground truth "is a ceremony candidate": the chain's own predicate on the identity read back
+func c16WriteIdentity(st *state.StateDB, id *c16Ident) {
+	st.SetState(id.addr, id.st)
+	st.SetPubKey(id.addr, id.pub)
+	st.SetShardId(id.addr, common.ShardId(id.rawShard))
+	st.SetRequiredFlips(id.addr, id.required)
+}
+
+// c16GroundTruth: "is a ceremony candidate" by the chain's own predicate on the identity read
+// back from the state, candidate ranks per shard, and same-shard duplicate cids among candidates.
+func c16GroundTruth(st *state.StateDB, l *c16Layout) error {
 	pos := map[int]int{}
 	for _, id := range l.idents {
 		ident := st.GetIdentity(id.addr)
@@ -573,10 +732,12 @@ func c16Build(l *c16Layout) (*c16World, error) {
 			pos[id.shard]++
 		}
 		if int(ident.ShiftedShardId()) != id.shard && id.st.IsInShard() {
-			return nil, fmt.Errorf("harness: shard id not stored as planned")
+			return fmt.Errorf("harness: shard id not stored as planned")
+		}
+		if len(ident.Flips) != len(id.flips) {
+			return fmt.Errorf("harness: %d flips stored for an identity planned with %d", len(ident.Flips), len(id.flips))
 		}
 	}
-	// same-shard duplicate cids among candidates
 	l.dupCids = map[string]bool{}
 	seen := map[string]bool{}
 	for _, id := range l.idents {
@@ -591,9 +752,74 @@ func c16Build(l *c16Layout) (*c16World, error) {
 			seen[k] = true
 		}
 	}
+	return nil
+}
+
+func c16Header(height uint64, flags types.BlockFlag) *types.Header {
+	return &types.Header{ProposedHeader: &types.ProposedHeader{Height: height, Flags: flags}}
+}
+
+// commitBlock commits the state as the next block and announces the block on the bus the way
+// the chain does (the keys pool follows the head through this event).
+func (w *c16World) commitBlock(flags types.BlockFlag) error {
+	if err := w.app.Commit(nil); err != nil {
+		return err
+	}
+	w.height++
+	w.bus.Publish(&events.NewBlockEvent{Block: &types.Block{Header: c16Header(w.height, flags), Body: &types.Body{}}})
+	return nil
+}
+
+// restart: what a node start does for the objects involved - AppState loaded from the database
+// at the head, a new KeysPool initialised at the head (it reloads what the epoch db holds).
+func (w *c16World) restart() error {
+	app, err := appstate.NewAppState(w.db, w.bus)
+	if err != nil {
+		return err
+	}
+	if err := app.Initialize(w.height); err != nil {
+		return err
+	}
+	w.app = app
+	w.keysPool = mempool.NewKeysPool(w.db, app, w.bus, c16Sec)
+	w.keysPool.Initialize(c16Header(w.height, 0))
+	w.flipper = flip.NewFlipper(w.db, ipfs.NewMemoryIpfsProxy(), w.keysPool, nil, c16Sec, app, w.bus)
+	w.flipper.Initialize()
+	return nil
+}
+
+func c16Build(l *c16Layout) (*c16World, error) {
+	w := &c16World{db: dbm.NewMemDB(), bus: eventbus.New()}
+	app, err := appstate.NewAppState(w.db, w.bus)
+	if err != nil {
+		return nil, err
+	}
+	if err := app.Initialize(0); err != nil {
+		return nil, err
+	}
+	w.app = app
+	st := app.State
+	st.SetGlobalEpoch(l.ep())
+	st.SetShardsNum(uint32(l.shardsNum))
+	for _, id := range l.idents {
+		c16WriteIdentity(st, id)
+		for j, c := range id.flips {
+			st.AddFlip(id.addr, c, uint8(j))
+		}
+	}
+	if err := w.commitBlock(0); err != nil { // version 1
+		return nil, err
+	}
+	if err := c16GroundTruth(st, l); err != nil {
+		return nil, err
+	}
 	if l.realKeys {
 		w.keysPool = mempool.NewKeysPool(w.db, app, w.bus, c16Sec)
-		w.keysPool.Initialize(&types.Header{ProposedHeader: &types.ProposedHeader{Height: 1}})
+		w.keysPool.Initialize(c16Header(w.height, 0))
+	}
+	if l.twoEpochs {
+		w.flipper = flip.NewFlipper(w.db, ipfs.NewMemoryIpfsProxy(), w.keysPool, nil, c16Sec, app, w.bus)
+		w.flipper.Initialize()
 	}
 	return w, nil
 }
@@ -608,11 +834,15 @@ func (w *c16World) newVC(ns uint16, seed []byte) *ValidationCeremony {
 		keysPool:           w.keysPool,
 		log:                log.New(),
 		syncer:             c16NotSyncing{},
+		config:             c16Config,
 		epochDb:            database.NewEpochDb(w.db, ns),
-		epoch:              c16Epoch,
+		epoch:              w.app.State.Epoch(),
 		epochApplyingCache: make(map[uint64]epochApplyingCache),
 		flipWordsInfo:      &flipWordsInfo{pool: &sync.Map{}},
 		lottery:            &lottery{},
+	}
+	if w.flipper != nil {
+		vc.flipper = w.flipper
 	}
 	if seed != nil {
 		vc.epochDb.WriteLotterySeed(seed)
@@ -722,8 +952,17 @@ func (l *c16Layout) describe() map[string]interface{} {
 		}
 		shards = append(shards, map[string]interface{}{"shard": s, "candidates": n, "authors_pos_to_flips": authors, "non_candidates": nonc})
 	}
-	return map[string]interface{}{"class": l.class, "phase": l.phase, "index": l.index, "verif_shard": verifutil.Shard(), "verif_nshards": verifutil.NShards(),
+	d := map[string]interface{}{"class": l.class, "phase": l.phase, "index": l.index, "verif_shard": verifutil.Shard(), "verif_nshards": verifutil.NShards(),
 		"shards_num": l.shardsNum, "lottery_seed": hex.EncodeToString(l.seed), "real_keys": l.realKeys, "second_evaluation": []string{"fresh ceremony, fresh epoch db", "fresh ceremony restoring persisted lottery identities", "state rebuilt from scratch"}[l.variantB], "shards": shards}
+	if l.epochNo == 2 {
+		// replaying (phase, index) re-runs the first epoch and then this one
+		d["epoch_of_history"] = 2
+		d["state_epoch"] = l.epoch
+		d["history"] = c16HistNames[l.hist]
+		d["who_publishes_again"] = []string{"every author of the first epoch", "drawn per identity", "nobody makes flips"}[l.mode]
+		delete(d, "second_evaluation")
+	}
+	return d
 }
 
 func (l *c16Layout) dump() []interface{} {
@@ -749,6 +988,10 @@ func (r *c16Runner) violation(l *c16Layout, sig, size, desc string) {
 	rp := l.describe()
 	if len(l.idents) <= 40 {
 		rp["identities"] = l.dump()
+	}
+	if l.epochNo == 2 {
+		sig += ":second-epoch"
+		desc = "SECOND EPOCH on one node (" + c16HistNames[l.hist] + "): " + desc
 	}
 	if size != "" {
 		sig = sig + "/" + size
@@ -811,7 +1054,7 @@ func (r *c16Runner) runInner(l *c16Layout) string {
 		rep.Inconcl("harness: cannot build state for layout: %v", err)
 		return ""
 	}
-	vcA := w.newVC(c16Epoch, l.seed)
+	vcA := w.newVC(l.ep(), l.seed)
 	vcA.calculateCeremonyCandidates(false)
 	if !vcA.lottery.finished {
 		rep.Inconcl("harness: lottery did not run")
@@ -824,23 +1067,23 @@ func (r *c16Runner) runInner(l *c16Layout) string {
 	var vcB *ValidationCeremony
 	switch l.variantB {
 	case 0:
-		vcB = w.newVC(c16Epoch+1, l.seed)
+		vcB = w.newVC(c16ScratchNs, l.seed)
 		vcB.calculateCeremonyCandidates(false)
 		rep.Count("second_eval_fresh", 1)
 	case 1:
-		vcB = w.newVC(c16Epoch, nil) // the seed and the lottery identities were persisted by the first
+		vcB = w.newVC(l.ep(), nil) // the seed and the lottery identities were persisted by the first
 		vcB.calculateCeremonyCandidates(true)
 		rep.Count("second_eval_restore", 1)
 	default:
-		rk := l.realKeys
-		l.realKeys = false // no second keys pool
+		rk, te := l.realKeys, l.twoEpochs
+		l.realKeys, l.twoEpochs = false, false // no second keys pool
 		w2, err := c16Build(l)
-		l.realKeys = rk
+		l.realKeys, l.twoEpochs = rk, te
 		if err != nil {
 			rep.Inconcl("harness: cannot rebuild state: %v", err)
 			return ""
 		}
-		vcB = w2.newVC(c16Epoch, l.seed)
+		vcB = w2.newVC(l.ep(), l.seed)
 		vcB.calculateCeremonyCandidates(false)
 		rep.Count("second_eval_rebuilt_state", 1)
 	}
@@ -865,7 +1108,171 @@ func (r *c16Runner) runInner(l *c16Layout) string {
 	full := c16JoinDigests(dA)
 	ld := c16Hash([]byte(c16JSON(l.describe()["shards"])), l.seed, []byte(full))
 	rep.Distinct("layout", ld)
+
+	if l.twoEpochs && l.realKeys {
+		r.secondEpoch(l, w, vcA)
+	}
 	return ld
+}
+
+// secondEpoch: the epoch that follows l on the SAME node. w holds the database, the AppState
+// and the KeysPool that went through l's key oracle (packages published, keys fetched through
+// GetFlipKeys, i.e. the pool's caches are filled); vc is the ceremony object that ran l.
+func (r *c16Runner) secondEpoch(l1 *c16Layout, w *c16World, vc *ValidationCeremony) {
+	rep := r.rep
+	l2 := c16GenNextEpoch(verifutil.Stream(16, uint64(l1.phase), uint64(l1.index), 2), l1)
+	l2.servedPrev = l1.served
+	rep.Progress("phase %d case %d class %s: second epoch, history %d mode %d", l2.phase, l2.index, l2.class, l2.hist, l2.mode)
+	rep.Eval(1)
+	fail := func(what string, err error) {
+		rep.Inconcl("harness: second epoch (history %d): %s: %v", l2.hist, what, err)
+	}
+
+	// ---- the validation-finishing block of the first epoch, reduced to what the lottery and the
+	// keys pool read: the epoch number goes up, the flips of the finished epoch are dropped,
+	// the identities get the state / flip duty they start the new epoch with
+	st := w.app.State
+	st.IncEpoch()
+	isOld := map[common.Address]bool{}
+	for _, id := range l1.idents {
+		isOld[id.addr] = true
+	}
+	for _, id := range l2.idents {
+		if isOld[id.addr] {
+			st.ClearFlips(id.addr)
+			c16WriteIdentity(st, id)
+		}
+	}
+	if err := w.commitBlock(types.ValidationFinished); err != nil {
+		fail("commit of the validation-finishing block", err)
+		return
+	}
+	if st.Epoch() != l2.epoch {
+		fail("epoch", fmt.Errorf("state epoch %d, planned %d", st.Epoch(), l2.epoch))
+		return
+	}
+	// ---- what ValidationCeremony.addBlock does on a block with the ValidationFinished flag
+	vc.completeEpoch() // new epoch db, flipper.Clear, keysPool.Clear, evidence map, lottery tables dropped
+	if l2.hist == c16HistRestartAtOnce {
+		if err := w.restart(); err != nil {
+			fail("restart", err)
+			return
+		}
+		st = w.app.State
+		vc = w.newVC(l2.epoch, nil)
+		rep.Count("second_epoch_restart_before_flips", 1)
+	}
+	// ---- the new epoch goes by: new identities are activated, flips are submitted
+	for _, id := range l2.idents {
+		if !isOld[id.addr] {
+			c16WriteIdentity(st, id)
+			rep.Count("second_epoch_identities_joined", 1)
+		}
+		for j, c := range id.flips {
+			st.AddFlip(id.addr, c, uint8(j))
+		}
+	}
+	if err := w.commitBlock(types.FlipLotteryStarted); err != nil {
+		fail("commit of the new flips", err)
+		return
+	}
+	// ---- the lottery of the second epoch on a node that never saw the first one (reference for
+	// the determinism oracle; built first so that the ground truth below comes from the node under test)
+	l2.realKeys = false
+	wRef, err := c16Build(l2)
+	l2.realKeys = true
+	if err != nil {
+		fail("reference state", err)
+		return
+	}
+	vcRef := wRef.newVC(l2.epoch, l2.seed)
+	vcRef.calculateCeremonyCandidates(false)
+	if !vcRef.lottery.finished {
+		fail("reference lottery", fmt.Errorf("did not run"))
+		return
+	}
+	obsRef := c16Observe(vcRef, l2)
+	dRef := obsRef.digests(l2)
+	if err := c16GroundTruth(st, l2); err != nil {
+		fail("ground truth", err)
+		return
+	}
+	// ---- flip lottery of the second epoch (handleFlipLotteryPeriod: seed into the epoch db, then the calculation)
+	vc.epochDb.WriteLotterySeed(l2.seed)
+	vc.calculateCeremonyCandidates(false)
+	if l2.hist == c16HistRestartInLottery {
+		if err := w.restart(); err != nil {
+			fail("restart", err)
+			return
+		}
+		vc = w.newVC(l2.epoch, nil)
+		vc.calculateCeremonyCandidates(true) // restoreState during the flip lottery period
+		rep.Count("second_epoch_restart_in_lottery", 1)
+	}
+	// (a lottery that does not come about on this node, while it does on the reference node for
+	// the same table and seed, is seen by the comparison below: every list is empty then)
+	lotteryRan := vc.lottery.finished
+	if l2.hist == c16HistSameNode {
+		rep.Count("second_epoch_same_node", 1)
+	}
+	rep.Count("second_epoch_layouts", 1)
+	rep.Count(fmt.Sprintf("second_epoch_mode_%d", l2.mode), 1)
+	both, bothServed := 0, 0
+	wasAuthor := map[common.Address]bool{}
+	for _, id := range l1.idents {
+		wasAuthor[id.addr] = id.cand && len(id.flips) > 0
+	}
+	for _, id := range l2.idents {
+		if id.cand && len(id.flips) > 0 && wasAuthor[id.addr] {
+			both++
+			if l1.served[id.addr] {
+				bothServed++
+			}
+		}
+	}
+	rep.Count("second_epoch_authors_in_both_epochs", both)
+	rep.Count("second_epoch_authors_in_both_epochs_served_in_first", bothServed)
+	if both > 0 && l2.hist == c16HistSameNode {
+		rep.Count("second_epoch_same_node_layouts_with_repeat_authors", 1)
+	}
+
+	obs := c16Observe(vc, l2)
+	d := obs.digests(l2)
+	maxN := 0
+	for s := 1; s <= l2.shardsNum; s++ {
+		if n := len(obsRef.cands[s]); n > maxN {
+			maxN = n
+		}
+	}
+	// ---- oracle 1 across histories: the lottery is a function of the table and the seed, not of
+	// what the node did in the epoch before
+	diverged := ""
+	for _, k := range []string{"tables", "recipients", "short", "long"} {
+		if d[k] != dRef[k] {
+			diverged = k
+			note := ""
+			if !lotteryRan {
+				note = " (on this node the lottery did not come about at all after the seed was stored and calculateCeremonyCandidates was called)"
+			}
+			r.violation(l2, "determinism:"+k, c16SizeClass(maxN), fmt.Sprintf("the node that ran the previous epoch and a node that did not disagree on %s for the same table and seed: %s vs %s%s%s", k, d[k], dRef[k], c16FirstDiff(l2, obs, obsRef), note))
+			break
+		}
+	}
+	rep.Count("second_epoch_compared_with_fresh_node", 1)
+	if !lotteryRan || diverged == "tables" {
+		// nothing the other oracles could add: they would all report the same stale / missing tables
+		rep.Count("second_epoch_oracles_skipped_after_divergence", 1)
+		return
+	}
+
+	r.check(l2, w, vc, obs)
+	rep.Distinct("layout", c16Hash([]byte("second-epoch"), []byte(c16JSON(l2.describe()["shards"])), l2.seed, []byte(c16JoinDigests(d))))
+
+	if rep.Get("second_epoch_samples") < 1 && both >= 3 && len(l2.idents) <= 24 {
+		rep.Count("second_epoch_samples", 1)
+		rep.Sample(map[string]interface{}{"two_epoch_history": l2.describe(), "first_epoch": l1.describe(),
+			"authors_publishing_in_both_epochs": both, "identities_first_epoch": l1.dump(), "identities_second_epoch": l2.dump()})
+	}
 }
 
 func c16FirstDiff(l *c16Layout, a, b *c16Obs) string {
@@ -894,6 +1301,12 @@ func c16Cids(l [][]byte) string {
 // check applies oracles 2..7 to one evaluation.
 func (r *c16Runner) check(l *c16Layout, w *c16World, vc *ValidationCeremony, o *c16Obs) {
 	rep := r.rep
+	count := func(name string, n int) { // second epochs have counters of their own
+		if l.epochNo == 2 {
+			name = "second_epoch_" + name
+		}
+		rep.Count(name, n)
+	}
 	// ---- ground truth from what the harness placed
 	type shardTruth struct {
 		cands    []int            // identity indexes in candidate order
@@ -945,27 +1358,27 @@ func (r *c16Runner) check(l *c16Layout, w *c16World, vc *ValidationCeremony, o *
 		// coverage: classes + fallback paths
 		ac, fc := c16AuthorClass(len(t.authors), len(t.cands)), c16FlipsClass(t.flipsAt)
 		rep.Distinct("class", t.sizeCls, ac, fc)
-		rep.Count("shards_evaluated", 1)
-		rep.Count("size_"+t.sizeCls, 1)
-		rep.Count("authors_"+ac, 1)
-		rep.Count("flips_"+fc, 1)
+		count("shards_evaluated", 1)
+		count("size_"+t.sizeCls, 1)
+		count("authors_"+ac, 1)
+		count("flips_"+fc, 1)
 		switch {
 		case len(t.cands) == 0:
-			rep.Count("path_zero_candidates", 1)
+			count("path_zero_candidates", 1)
 		case t.nFlips == 0:
-			rep.Count("path_zero_flips", 1)
+			count("path_zero_flips", 1)
 		}
 		if t.nFlips == 1 {
-			rep.Count("path_single_flip", 1)
+			count("path_single_flip", 1)
 		}
 		if len(t.authors) >= 1 && len(t.authors) < c16Quota {
-			rep.Count("path_few_authors", 1)
+			count("path_few_authors", 1)
 		}
 		if len(t.authors) > 7 {
-			rep.Count("path_topup_over7_authors", 1)
+			count("path_topup_over7_authors", 1)
 		}
 		if len(t.authors) >= c16Quota && t.nFlips == len(t.authors) {
-			rep.Count("path_one_flip_each_quota_or_more_authors", 1) // where long lists can come out empty
+			count("path_one_flip_each_quota_or_more_authors", 1) // where long lists can come out empty
 		}
 		if sl := vc.shardLotteries[common.ShardId(s)]; sl != nil { // coverage only, never a verdict
 			for c, as := range sl.authorsPerCandidate {
@@ -974,30 +1387,30 @@ func (r *c16Runner) check(l *c16Layout, w *c16World, vc *ValidationCeremony, o *
 					m[a] = true
 				}
 				if m[c] {
-					rep.Count("cov_self_assignment", 1)
+					count("cov_self_assignment", 1)
 				}
 				if len(m) < c16Quota {
-					rep.Count("cov_rotation_branch", 1)
+					count("cov_rotation_branch", 1)
 				} else {
-					rep.Count("cov_full_branch", 1)
+					count("cov_full_branch", 1)
 				}
 				if len(as) > c16Quota {
-					rep.Count("cov_topup_links", len(as)-c16Quota)
+					count("cov_topup_links", len(as)-c16Quota)
 				}
 				if len(m) < len(as) {
-					rep.Count("cov_repeated_author_for_candidate", 1)
+					count("cov_repeated_author_for_candidate", 1)
 				}
 			}
 		}
 	}
 	if shardsWithCands >= 2 {
-		rep.Count("path_multi_shard", 1)
+		count("path_multi_shard", 1)
 	}
 	if l.xdup {
-		rep.Count("path_cross_shard_same_cid", 1)
+		count("path_cross_shard_same_cid", 1)
 	}
 	if len(l.dupCids) > 0 {
-		rep.Count("path_same_shard_same_cid", 1)
+		count("path_same_shard_same_cid", 1)
 	}
 
 	// ---- recipients per author as sets of identity indexes
@@ -1016,7 +1429,7 @@ func (r *c16Runner) check(l *c16Layout, w *c16World, vc *ValidationCeremony, o *
 			recSet[i][j] = true
 		}
 		if len(recSet[i]) < len(o.recip[i]) {
-			rep.Count("cov_recipient_listed_repeatedly", 1)
+			count("cov_recipient_listed_repeatedly", 1)
 		}
 	}
 
@@ -1025,7 +1438,7 @@ func (r *c16Runner) check(l *c16Layout, w *c16World, vc *ValidationCeremony, o *
 	for i, id := range l.idents {
 		if !id.cand {
 			if len(o.short[i])+len(o.long[i]) > 0 {
-				rep.Count("cov_noncandidate_with_lists", 1)
+				count("cov_noncandidate_with_lists", 1)
 			}
 			continue
 		}
@@ -1062,7 +1475,7 @@ func (r *c16Runner) check(l *c16Layout, w *c16World, vc *ValidationCeremony, o *
 			r.violation(l, "long-empty", t.sizeCls, fmt.Sprintf("%s: empty long list although the shard has %d flips", who, t.nFlips))
 		}
 		if t.nFlips > 0 && len(o.short[i]) == 0 {
-			rep.Count("cov_short_empty_with_flips", 1)
+			count("cov_short_empty_with_flips", 1)
 		}
 
 		// ---- oracle 6, forward: assigned => recipient of the flip's author (and the index lookup points at c's entry)
@@ -1083,7 +1496,7 @@ func (r *c16Runner) check(l *c16Layout, w *c16World, vc *ValidationCeremony, o *
 						self = self || x == i
 					}
 					if self { // one of the submitters itself: it has its own key, nothing is demanded
-						rep.Count("cov_dupcid_assigned_to_submitter", 1)
+						count("cov_dupcid_assigned_to_submitter", 1)
 						continue
 					}
 					// two candidates submitted this cid: the candidate will consult the package of
@@ -1109,13 +1522,13 @@ func (r *c16Runner) check(l *c16Layout, w *c16World, vc *ValidationCeremony, o *
 				}
 				if fail == "" {
 					if a == i {
-						rep.Count("cov_own_flip_assigned", 1)
+						count("cov_own_flip_assigned", 1)
 					}
 					continue
 				}
 				if isPlaceholder(si, c) {
 					placeholders++
-					rep.Count("placeholder_exempted", 1)
+					count("placeholder_exempted", 1)
 					continue
 				}
 				if dup {
@@ -1131,7 +1544,7 @@ func (r *c16Runner) check(l *c16Layout, w *c16World, vc *ValidationCeremony, o *
 		}
 	}
 	if placeholders > 0 {
-		rep.Count("path_placeholder_layouts", 1)
+		count("path_placeholder_layouts", 1)
 	}
 	// ---- oracle 6, converse: recipient => assigned at least one flip of that author
 	for s := 1; s <= l.shardsNum; s++ {
@@ -1139,7 +1552,7 @@ func (r *c16Runner) check(l *c16Layout, w *c16World, vc *ValidationCeremony, o *
 		for _, a := range t.authors {
 			au := l.idents[a]
 			if recSet[a] == nil {
-				rep.Count("cov_author_without_recipients", 1)
+				count("cov_author_without_recipients", 1)
 				continue
 			}
 			done := map[int]bool{}
@@ -1180,7 +1593,7 @@ func (r *c16Runner) check(l *c16Layout, w *c16World, vc *ValidationCeremony, o *
 		nA += len(truth[s].authors)
 	}
 	want := false
-	if rep.Get("samples_taken") < 2 {
+	if rep.Get("samples_taken") < 2 && l.epochNo != 2 {
 		switch verifutil.Shard() % 4 {
 		case 0:
 			want = l.phase == c16PhaseExh && nC >= 5 && nA >= 2 && nA < nC
@@ -1193,7 +1606,7 @@ func (r *c16Runner) check(l *c16Layout, w *c16World, vc *ValidationCeremony, o *
 		}
 	}
 	if want {
-		rep.Count("samples_taken", 1)
+		count("samples_taken", 1)
 		idx := map[string]string{}
 		for s := 1; s <= l.shardsNum; s++ {
 			for k, f := range o.flips[s] {
@@ -1232,7 +1645,17 @@ func (r *c16Runner) check(l *c16Layout, w *c16World, vc *ValidationCeremony, o *
 // and decrypts with its own key.
 func (r *c16Runner) checkKeys(l *c16Layout, w *c16World, vc *ValidationCeremony, o *c16Obs, recSet []map[int]bool, isPlaceholder func(i, sess int, c []byte) bool) {
 	rep := r.rep
+	count := func(name string, n int) {
+		if l.epochNo == 2 {
+			name = "second_epoch_" + name
+		}
+		rep.Count(name, n)
+	}
 	rng := verifutil.NewRng(verifutil.Seed(), 1603, uint64(l.index), uint64(l.phase))
+	if l.epochNo == 2 {
+		rng = verifutil.NewRng(verifutil.Seed(), 1603, uint64(l.index), uint64(l.phase), 2)
+	}
+	l.served = map[common.Address]bool{}
 	authorsOf := map[string][]int{}
 	published := map[int]bool{}
 	sizeOf := map[int]string{}
@@ -1251,7 +1674,7 @@ func (r *c16Runner) checkKeys(l *c16Layout, w *c16World, vc *ValidationCeremony,
 			continue
 		}
 		data := mempool.EncryptPrivateKeysPackage(id.flipPub, id.flipPriv, o.recip[i])
-		pkg, err := types.SignFlipKeysPackage(&types.PrivateFlipKeysPackage{Data: data, Epoch: c16Epoch}, id.key)
+		pkg, err := types.SignFlipKeysPackage(&types.PrivateFlipKeysPackage{Data: data, Epoch: l.ep()}, id.key)
 		if err != nil {
 			rep.Inconcl("harness: cannot sign package: %v", err)
 			return
@@ -1260,7 +1683,7 @@ func (r *c16Runner) checkKeys(l *c16Layout, w *c16World, vc *ValidationCeremony,
 			rep.Inconcl("harness: keys pool refused a package of %d bytes for %d recipients: %v", len(data), len(o.recip[i]), err)
 			return
 		}
-		pk, err := types.SignFlipKey(&types.PublicFlipKey{Key: crypto.FromECDSA(id.flipPub.ExportECDSA()), Epoch: c16Epoch}, id.key)
+		pk, err := types.SignFlipKey(&types.PublicFlipKey{Key: crypto.FromECDSA(id.flipPub.ExportECDSA()), Epoch: l.ep()}, id.key)
 		if err != nil {
 			rep.Inconcl("harness: cannot sign flip key: %v", err)
 			return
@@ -1270,7 +1693,7 @@ func (r *c16Runner) checkKeys(l *c16Layout, w *c16World, vc *ValidationCeremony,
 			return
 		}
 		published[i] = true
-		rep.Count("keys_packages_published", 1)
+		count("keys_packages_published", 1)
 	}
 	for i, id := range l.idents {
 		if !id.cand {
@@ -1278,7 +1701,7 @@ func (r *c16Runner) checkKeys(l *c16Layout, w *c16World, vc *ValidationCeremony,
 		}
 		if id.badPub {
 			if _, err := crypto.UnmarshalPubkey(id.pub); err != nil {
-				rep.Count("keys_recipient_without_valid_pubkey", 1)
+				count("keys_recipient_without_valid_pubkey", 1)
 				continue // nobody can encrypt for it
 			}
 		}
@@ -1316,14 +1739,17 @@ func (r *c16Runner) checkKeys(l *c16Layout, w *c16World, vc *ValidationCeremony,
 						}
 						r.violation(l, "link:dup-cid", "", fmt.Sprintf("%s is assigned flip %s submitted by %s, but GetFlipKeys gives it no usable key: err=%v", who, c16Short(c), strings.Join(ss, ", "), err))
 					} else if ok {
-						rep.Count("keys_dupcid_decrypted_ok", 1)
+						count("keys_dupcid_decrypted_ok", 1)
 					}
 					continue
 				}
 				au := l.idents[subs[0]]
+				if err == nil {
+					l.served[au.addr] = true // the pool handed out an entry of this author's package
+				}
 				if err != nil {
 					if isPlaceholder(i, si, c) {
-						rep.Count("keys_placeholder_exempted", 1)
+						count("keys_placeholder_exempted", 1)
 						continue
 					}
 					r.violation(l, "keys:extract", size, fmt.Sprintf("%s is assigned flip %s of %s but GetFlipKeys fails: %v", who, c16Short(c), au.addr.Hex(), err))
@@ -1335,13 +1761,17 @@ func (r *c16Runner) checkKeys(l *c16Layout, w *c16World, vc *ValidationCeremony,
 				dec, err := ecies.ImportECDSA(id.key).Decrypt(enc, nil, nil)
 				if err != nil || !bytes.Equal(dec, crypto.FromECDSA(au.flipPriv.ExportECDSA())) {
 					if isPlaceholder(i, si, c) {
-						rep.Count("keys_placeholder_exempted", 1)
+						count("keys_placeholder_exempted", 1)
 						continue
 					}
 					r.violation(l, "keys:decrypt", size, fmt.Sprintf("%s: the package entry for flip %s of %s does not decrypt to the author's private flip key under the candidate's key (err=%v)", who, c16Short(c), au.addr.Hex(), err))
 					continue
 				}
-				rep.Count("keys_decrypted_ok", 1)
+				count("keys_decrypted_ok", 1)
+				if l.servedPrev[au.addr] {
+					// the author published in the previous epoch too and the node served that package then
+					count("keys_decrypted_ok_author_served_in_first_epoch", 1)
+				}
 			}
 		}
 	}
@@ -1365,25 +1795,26 @@ func (r *c16Runner) checkKeys(l *c16Layout, w *c16World, vc *ValidationCeremony,
 			}
 		}
 		if len(outsiders) == 0 {
-			rep.Count("keys_author_without_outsiders", 1)
+			count("keys_author_without_outsiders", 1)
 			continue
 		}
 		for _, k := range idxs {
 			enc := w.keysPool.GetEncryptedPrivateFlipKey(k, au.addr)
 			if _, perr := crypto.UnmarshalPubkey(o.recip[a][k]); perr != nil && len(enc) == 0 {
-				rep.Count("keys_empty_entry_for_invalid_pubkey", 1)
+				count("keys_empty_entry_for_invalid_pubkey", 1)
 				continue
 			}
 			if len(enc) == 0 {
 				r.violation(l, "keys:entry-missing", "", fmt.Sprintf("package of author %s has no entry %d of %d", au.addr.Hex(), k, n))
 				continue
 			}
+			l.served[au.addr] = true
 			for t := 0; t < 2; t++ {
 				x := l.idents[outsiders[rng.Intn(len(outsiders))]]
 				if dec, err := ecies.ImportECDSA(x.key).Decrypt(enc, nil, nil); err == nil {
 					r.violation(l, "keys:non-recipient-decrypts", "", fmt.Sprintf("entry %d of the package of author %s decrypts (%d bytes) under the key of %s, who is not among its recipients", k, au.addr.Hex(), len(dec), x.addr.Hex()))
 				} else {
-					rep.Count("keys_outsider_refused", 1)
+					count("keys_outsider_refused", 1)
 				}
 			}
 		}
@@ -1453,6 +1884,7 @@ func TestVerifC16Lottery(t *testing.T) {
 	for i := 0; i < n; i++ {
 		l := c16GenRandom(verifutil.Stream(16, c16PhaseReal, uint64(i)), true)
 		l.phase, l.index = c16PhaseReal, i
+		l.twoEpochs = true // followed by a second epoch on the same node
 		r.run(l)
 		rep.Count("realkey_layouts", 1)
 	}
@@ -1515,6 +1947,7 @@ func c16Replay(t *testing.T, r *c16Runner, path string) {
 		l = c16GenRandom(verifutil.Stream(16, c16PhaseRandom, uint64(rp.Index)), false)
 	case c16PhaseReal:
 		l = c16GenRandom(verifutil.Stream(16, c16PhaseReal, uint64(rp.Index)), true)
+		l.twoEpochs = true
 	case c16PhaseDup:
 		l = c16GenDup(verifutil.Stream(16, c16PhaseDup, uint64(rp.Index)), rp.Index == 0 && verifutil.Shard() == 0)
 	case c16PhaseExh:
